@@ -407,6 +407,16 @@ class C12(F.Check):
         obs.append(F.Ob("mul_mod:callsite_matches_hint", v, stepfn(fn_site_hint), kernels=["c12_mul_mod"], routes=["z3-intq", "cvc5-intq", "z3-int"],
                         note="recursive call arguments are n - a*(n div a) and b div (n div a)"))
 
+        def realisable(K, a, b, n, rec):
+            """refinement used when a counterexample with a free `rec` does not reproduce: ask for one in which the recursive call is in
+            its simple branch (a2*b2 < 2^64), so that rec is exactly (a2*b2) mod n - the value the real code computes there"""
+            if isinstance(K["c12_mul_mod"], F.NativeHandle):
+                return T.TRUE
+            e, site, pre = parts(K, a, b, n, rec)
+            a2, b2, n2 = site["args"]
+            prod = T.imul(U(a2), U(b2))
+            return T.and_(site["guard"], T.ilt(prod, T.const_int(1 << 64)), T.eq(U(rec), T.imod(prod, U(n))))
+
         def fn_notrap(K, a, b, n, rec):
             e, site, pre = parts(K, a, b, n, rec)
             return T.and_(pre, T.bvcmp("ult", rec, n)), T.not_(e.ub)
@@ -461,6 +471,11 @@ class C12(F.Check):
                         routes=["cvc5-int", "z3-int"], timeout=60,
                         note="X == Q*N + R and 0 <= R < N => X mod N == R (turns the identity into 'exact residue')"))
 
+        for ob_ in obs:
+            if ob_.name in ("mul_mod:no_trap", "mul_mod:result_below_n", "mul_mod:result_matches_formula"):
+                ob_.realisable = realisable
+                ob_.realisable_routes = ["z3-intq", "z3-int", "cvc5-intq"]
+                ob_.realisable_timeout = 120
         # ---------------- same step, bit-precise at reduced width
         W = 5 if self.tier == "quick" else 6
         for w, kind in (((W, "claimed"),) if self.tier == "quick" else ((W, "claimed"), (W + 1, "stretch"))):
